@@ -88,15 +88,15 @@ Fixpoint run_obs (cfg : config) (st : state) (evs : list (event * outcome)) : op
 
 (* successive_halving_rung_levels: (rung_levels, grace_period, reduction_factor, rung_increment, max_t, implementation's
    result or None = AssertionError) *)
-Definition lv_params := (option (list Z) * Z * option Z * option Z)%type.
+Definition lv_params := (option (list Z) * Z * option Q * option Z)%type.
 Definition levels_case := (lv_params * Z * option (list Z))%type.
 Definition model_levels (p : lv_params) (max_t : Z) : option (list Z) :=
   let '(rl, grace, rf, incr) := p in sh_rung_levels rl grace rf incr max_t.
 Definition chk_levels (c : levels_case) : bool :=
   let '(p, max_t, impl) := c in opt_eqb (list_eqb Z.eqb) (model_levels p max_t) impl.
 
-(* (is_min, max_t, per_bracket, rush), construction parameters (None: non-integer reduction factor, the
-   implementation's levels are used), implementation's rung levels, brackets, observed events,
+(* (is_min, max_t, per_bracket, rush), construction parameters (None only for a rounding Boundary of a non-integer
+   reduction factor: then the implementation's levels are used), implementation's rung levels, brackets, observed events,
    information_for_rungs() at the end (level, entries, prom_quant) *)
 Definition seq_case := ((bool * Z * bool * option Z) * option lv_params * list Z * nat * list (event * outcome)
                         * list (Z * nat * Q))%type.
@@ -239,6 +239,10 @@ def run_sequence(ctx, spec, events=None):
     mode = spec["mode"]
     per_bracket = spec.get("per_bracket", False)
     nthr = spec.get("num_threshold_candidates", 0) if spec["type"] == "rush_stopping" else None
+    impl_levels = levels
+    # the checker works with the DOCUMENTED rung levels (recomputed by the harness), not with the scheduler's own
+    doc = U.expected_rung_levels(spec)
+    levels = doc if doc else impl_levels
     quant = {lv: lv / (levels[i + 1] if i + 1 < len(levels) else max_t) for i, lv in enumerate(levels)}
 
     # ---- harness-side tracker (independent checker of the documented rule) ----
@@ -443,14 +447,14 @@ def run_sequence(ctx, spec, events=None):
     info = [(int(a), int(b), float(c)) for a, b, c in sch.terminator.information_for_rungs()]
     # enter-once / own-levels-only, observed through the public rung sizes of system 0
     for lv, cnt, pq in info:
-        if abs(pq - quant[lv]) > 1e-12:
+        if lv in quant and abs(pq - quant[lv]) > 1e-12:
             violations.append(("promotion quantile of rung level %d is %r, expected level/next level = %r" % (
                 lv, pq, quant[lv]), "promotion_quantile"))
         mine = len(store.get((0, lv), []))
         if mine != cnt:
             violations.append(("rung level %d of system 0 holds %d entries, but %d distinct trials reported at it as "
                                "one of their own rung levels" % (lv, cnt, mine), "rung_size_mismatch"))
-    return dict(levels=levels, num_brackets=nb, events=out_events, info=info, violations=violations,
+    return dict(levels=impl_levels, num_brackets=nb, events=out_events, info=info, violations=violations,
                 n_boundary=n_boundary, n_rung_decisions=n_decisions_at_rung, n_nontrivial=n_nontrivial)
 
 
@@ -491,22 +495,21 @@ def seq_term(spec, res):
 
 
 def params_of(spec):
-    """construction parameters as the scheduler passes them to successive_halving_rung_levels; None for a
-    non-integer reduction factor (float power and rounding are not modelled)"""
+    """construction parameters as the scheduler passes them to successive_halving_rung_levels; None when
+    r_min * eta^k is within round-off of a rounding boundary (binary64 may legitimately round the other way)"""
     if spec.get("rung_levels") is not None:
         return dict(rung_levels=list(spec["rung_levels"]), grace_period=1, reduction_factor=None, rung_increment=None)
     rf, incr = spec.get("reduction_factor"), spec.get("rung_increment")
     if rf is None and incr is None:
         rf = 3
-    if rf is not None and int(rf) != rf:
+    if rf is not None and U.documented_rung_levels(dict(spec, reduction_factor=rf))[1]:
         return None
-    return dict(rung_levels=None, grace_period=spec["grace_period"], reduction_factor=None if rf is None else int(rf),
-                rung_increment=incr)
+    return dict(rung_levels=None, grace_period=spec["grace_period"], reduction_factor=rf, rung_increment=incr)
 
 
 def params_term(p):
     return "(%s, %s, %s, %s)" % (optlit(p["rung_levels"], lambda l: lst([zlit(x) for x in l])), zlit(p["grace_period"]),
-                                 optlit(p["reduction_factor"], zlit), optlit(p["rung_increment"], zlit))
+                                 optlit(p["reduction_factor"], q), optlit(p["rung_increment"], zlit))
 
 
 # ------------------------------------------------------------------------------------------------
@@ -519,7 +522,8 @@ def gen_levels_case(rng):
              grace_period=rng.choice([0, 1, 1, 1, 1, 1, 2, 2, 3, 3, 5, rng.randint(1, 12)]),
              reduction_factor=None, rung_increment=None)
     if style in ("rf", "both"):
-        c["reduction_factor"] = rng.choice([1, 2, 2, 2, 3, 3, 3, 4, 4, 5, 7, 10])
+        c["reduction_factor"] = rng.choice([1, 1.5, 2, 2, 3, 3, 4, 5, 7, 10, 2.0, 2.2, 2.2, 2.5, 2.5, 2.7, 2.7, 3.5, 3.5,
+                                            round(rng.uniform(2, 4), 2)])
     if style in ("incr", "both"):
         c["rung_increment"] = rng.choice([0, 1, 1, 1, 2, 2, 3, 5, 9, 40])
     if style == "explicit":
@@ -541,7 +545,7 @@ def gen_levels_case(rng):
 def run_levels_cases(ctx, cases_in):
     from syne_tune.optimizer.schedulers.utils.successive_halving import successive_halving_rung_levels
     U.quiet()
-    terms = []
+    terms, kept = [], []
     for c in cases_in:
         try:
             impl = successive_halving_rung_levels(None if c["rung_levels"] is None else list(c["rung_levels"]), c["grace_period"],
@@ -552,26 +556,38 @@ def run_levels_cases(ctx, cases_in):
         ctx.count(("levels", c), nontrivial=impl is not None and len(impl) >= 2)
         ctx.h("levels_kind", "explicit" if c["rung_levels"] is not None else ("rf" if c["reduction_factor"] is not None else "incr"))
         ctx.h("levels_result", "AssertionError" if impl is None else min(len(impl), 8))
+        rf = c["reduction_factor"]
+        rf_int = rf is None or int(rf) == rf
+        boundary = False
         if impl is not None:
             # independent checker: strictly increasing positive levels below max_t, equal to the documented formula
-            want = U.expected_rung_levels(c)
+            # (exact rational arithmetic, every reduction factor)
+            want, boundary = U.documented_rung_levels(c)
             ok = all(a < b for a, b in zip(impl, impl[1:])) and all(1 <= x < c["max_t"] for x in impl) and len(impl) >= 1
-            if not ok or (want is not None and want != impl):
-                ctx.violation("property", "successive_halving_rung_levels gives %r, expected %r" % (impl, want), case=c,
-                              signature=dict(function="successive_halving_rung_levels", defect="rung_levels"))
+            if not ok or (not boundary and want != impl):
+                ctx.violation("property", "successive_halving_rung_levels(grace_period=%r, reduction_factor=%r, rung_increment=%r, "
+                              "rung_levels=%r, max_t=%r) gives %r, documented r_min*eta^k (rounded) is %r" % (
+                                  c["grace_period"], rf, c["rung_increment"], c["rung_levels"], c["max_t"], impl, want), case=c,
+                              signature=dict(check="rung_levels", rf_integer=bool(rf_int)))
+        ctx.h("levels_rf", "none" if rf is None else ("integer" if rf_int else "non_integer"))
+        if boundary:
+            ctx.h("levels_result", "Boundary")
+            continue
+        kept.append(c)
         terms.append("((%s, %s, %s) : levels_case)" % (params_term(c), zlit(c["max_t"]),
                                                       optlit(impl, lambda l: lst([zlit(x) for x in l]))))
     if terms:
         for i in ctx.coq_bad_cases("levels", IMPORTS, PRELUDE, "chk_levels", terms, shard=300):
             ctx.violation("correspondence", "model sh_rung_levels differs from successive_halving_rung_levels",
-                          case=cases_in[i], failing_input=False,
+                          case=kept[i], failing_input=False,
                           broken="correspondence chk_levels (model/Rung.v sh_rung_levels)")
 
 
 def run(ctx, replay=None):
     ctx.rule = ("cases: (a) Rung.add/quantile on metric lists of length 0..60 (grids with ties, duplicates, signed floats), "
                 "both modes, q = level/next level; non-trivial = >= 3 entries with >= 2 distinct values; (a') "
-                "successive_halving_rung_levels on grids of grace_period / integer reduction_factor / rung_increment / "
+                "successive_halving_rung_levels on grids of grace_period / reduction_factor (integers and 1.5, 2.2, 2.5, 2.7, 3.5, "
+                "random two-decimal values) / rung_increment / "
                 "explicit lists (valid and invalid) / max_t; non-trivial = >= 2 levels returned; "
                 "(b) event scripts on the real HyperbandScheduler(type=stopping|rush_stopping, searcher=random): grace "
                 "period / reduction factor in {2,3,4,2.5} / rung increment / explicit rung list, max_t <= 81, brackets "
@@ -629,8 +645,10 @@ def run(ctx, replay=None):
         # rung levels: independent recomputation when the reduction factor is an integer
         want_levels = U.expected_rung_levels(spec)
         if want_levels is not None and want_levels != res["levels"]:
-            ctx.violation("property", "rung levels %r, expected %r" % (res["levels"], want_levels), case=case,
-                          signature=dict(scheduler="HyperbandScheduler", defect="rung_levels"))
+            rf = spec.get("reduction_factor")
+            ctx.violation("property", "scheduler.rung_levels = %r, documented r_min*eta^k (rounded) is %r (grace_period=%r, "
+                          "reduction_factor=%r, max_t=%r)" % (res["levels"], want_levels, spec.get("grace_period"), rf, spec["max_t"]),
+                          case=case, signature=dict(check="rung_levels", rf_integer=bool(rf is None or int(rf) == rf)))
         for what, defect in res["violations"][:1]:
             ctx.violation("property", what, case=case,
                           signature=dict(scheduler="HyperbandScheduler", type=spec["type"], defect=defect))
